@@ -180,7 +180,14 @@ func (dw *DiskWriter) HandleChange(kind ChangeKind, p string, fi os.FileInfo, er
 			return errors.Wrapf(err, "failed to symlink %s", newPath)
 		}
 	case statCopy.Linkname != "":
-		if err := os.Link(filepath.Join(dw.dest, statCopy.Linkname), newPath); err != nil {
+		linkSrc := filepath.Join(dw.dest, statCopy.Linkname)
+		// The link source is normally a file this transfer has written. With a
+		// filter or a metadata-only selector that skipped it, an old symlink may
+		// still be there: the metadata below would be applied through it.
+		if srcFi, err := os.Lstat(linkSrc); err == nil && srcFi.Mode()&os.ModeSymlink != 0 {
+			return errors.Errorf("failed to link %s to %s: link source is a symlink", newPath, statCopy.Linkname)
+		}
+		if err := os.Link(linkSrc, newPath); err != nil {
 			return errors.Wrapf(err, "failed to link %s to %s", newPath, statCopy.Linkname)
 		}
 	default:
